@@ -546,13 +546,13 @@ def mk_specs():
         b = g_bound(rng)
         a = {'model': pick(rng, COV), 'bound': b}
         if cell.get('custom') and rng.uniform() < 0.4:
-            a['custom_model'] = 'logit:g'          # stateless learners, one instance per nuisance model
+            a['custom_model'] = pick(rng, BIN_LEARNERS)     # the same (stateful) instances as for every other call
         return a, bool(b)
 
     def g_sout(rng, cell):
         a = {'model': 'A + ' + pick(rng, COV)}
         if cell.get('custom') and rng.uniform() < 0.4:
-            a['custom_model'] = 'logit:q' if cell['ybin'] else 'linear:q'
+            a['custom_model'] = pick(rng, BIN_LEARNERS if cell['ybin'] else CONT_LEARNERS)
         if not cell['ybin']:
             a['continuous_distribution'] = pick(rng, ['gaussian', 'poisson'])
             if rng.uniform() < 0.3:
@@ -591,12 +591,6 @@ def mk_specs():
         a.update(samples=int(pick(rng, [3, 5])), seed=int(rng.integers(1, 10 ** 6)),
                  predict_missing=bool(rng.uniform() < 0.7))
         return a, False
-
-    def stmle_known(ops_involved):
-        if any(o['args'].get('custom_model') for o in ops_involved):
-            return {'class': 'StochasticTMLE', 'feature': 'custom_model_fitted_in_place'}
-        return None
-    S['StochasticTMLE'].known = stmle_known
 
     S['TimeFixedGFormula'] = Spec(
         'TimeFixedGFormula', product(otype=['binary', 'normal', 'poisson'], miss=[False, True], weights=[None, 'W'],
@@ -1352,55 +1346,194 @@ H_FORMULA = {'IPSW': 'S ~ L1 + L2', 'GTransportFormula': 'S ~ L1 + L2', 'AIPSW':
 
 
 def function_sweep(chk, rng):
-    """non-mutation of arguments by the plain functions / measure classes (part of the property's first clause)"""
+    """Every public function of zEpid that the property's anchors name or that is documented for direct use, called
+    directly with the caller's ndarray / Series / DataFrame arguments (float and fixed-width-integer arrays, Series with
+    a permuted index, read-only buffers): the arguments are snapshotted before and after (values, NaN pattern, dtype,
+    index, columns), and the call is repeated on the *same* argument objects -- the second result must equal the first
+    (an argument that was centred / truncated / sorted in place changes it)."""
+    import matplotlib.pyplot as plt
     import zepid
     import zepid.calc.utils as cu
-    n = 80
-    df = gen_cross(rng, n, ybin=True, miss=True)
+    import zepid.causal.utils as zu
+    import zepid.causal.doublyrobust.utils as du
+    import zepid.causal.doublyrobust.crossfit as cf
+    import zepid.graphics as zg
+    from sklearn.linear_model import LogisticRegression, LinearRegression
+    n = 90
+    df = gen_cross(rng, n, ybin=True, miss=True, perm=True)
     df['t'] = np.round(rng.uniform(0.5, 5, n), 2)
-    v = rng.uniform(0.01, 0.99, n)
-    ro = v.copy()
-    ro.setflags(write=False)
-    ser = pd.Series(rng.uniform(0.01, 0.99, n), index=rng.permutation(n))
-    calls = [('probability_bounds(ndarray)', lambda: cu.probability_bounds(v, 0.2), [v]),
-             ('probability_bounds(read-only)', lambda: cu.probability_bounds(ro, [0.1, 0.7]), [ro]),
-             ('probability_bounds(Series)', lambda: cu.probability_bounds(ser, 0.3), [ser]),
-             ('probability_to_odds', lambda: cu.probability_to_odds(v), [v]),
-             ('odds_to_probability', lambda: cu.odds_to_probability(v), [v]),
-             ('spline', lambda: zepid.spline(df, 'L2', n_knots=3, term=2, restricted=True), [df]),
-             ('table1_generator', lambda: zepid.table1_generator(df, ['L1', 'L2'], ['category', 'continuous'],
-                                                                strat_by='A'), [df])]
-    est = rng.normal(size=6)
-    ses = rng.uniform(0.1, 0.5, size=6)
-    pv = rng.uniform(0.001, 0.9, size=6)
-    calls += [('rubins_rules', lambda: cu.rubins_rules(est, ses), [est, ses]),
-              ('s_value', lambda: cu.s_value(pv), [pv])]
-    for cls in ('Sensitivity', 'Specificity', 'Diagnostics'):
-        calls.append((cls + '.fit', (lambda c: lambda: getattr(zepid, c)().fit(df, test='L1', disease='L3'))(cls),
-                      [df]))
+    df['unused'] = np.where(rng.uniform(size=n) < 0.2, np.nan, 1.0)          # an extra column with NaN
+    cc = df.dropna(subset=['Y']).copy()
+    cc['w_'] = np.round(rng.uniform(0.5, 2.0, len(cc)), 3)
+    cc['ps'] = np.round(rng.uniform(0.2, 0.8, len(cc)), 4)
+
+    def vec(x, kind):
+        x = np.asarray(x)
+        if kind == 'ndarray':
+            return np.array(x, dtype=float)
+        if kind == 'series':
+            return pd.Series(np.array(x, dtype=float), index=rng.permutation(len(x)) + 3)
+        if kind == 'readonly':
+            v = np.array(x, dtype=float)
+            v.setflags(write=False)
+            return v
+        raise KeyError(kind)
+
+    KINDS = ['ndarray', 'series', 'readonly']
+    m = len(cc)
+    p01 = rng.uniform(0.03, 0.97, m)
+    est = rng.normal(0.1, 0.05, 9)
+    var = rng.uniform(0.001, 0.004, 9)
+    yb = np.asarray(cc['Y'], dtype=float)
+    ab = np.asarray(cc['A'], dtype=float)
+    q1, q0 = rng.uniform(0.2, 0.8, m), rng.uniform(0.1, 0.7, m)
+    g1 = rng.uniform(0.25, 0.75, m)
+    spl = rng.integers(0, 2, m).astype(float)
+    X = np.asarray(cc[['L1', 'L2', 'L3']], dtype=float)
+    todo = []     # (name, builder(kind) -> (callable on args, list of argument objects))
+
+    def add(name, f, *cols, kinds=KINDS, frame=None):
+        for k in (kinds if cols else ['frame']):
+            def build(k=k):
+                args = [vec(c, k) for c in cols]
+                fr = frame.copy() if frame is not None else None
+                return (lambda: f(*(([fr] if fr is not None else []) + args))), args + ([fr] if fr is not None else [])
+            todo.append(('%s[%s]' % (name, k if cols else 'DataFrame'), build))
+
+    # ---- calc/utils.py
+    add('probability_bounds(float)', lambda v: cu.probability_bounds(v, 0.2), p01)
+    add('probability_bounds(list)', lambda v: cu.probability_bounds(v, [0.1, 0.7]), p01)
+    add('probability_bounds(np.float64)', lambda v: cu.probability_bounds(v, np.float64(0.3)), p01)
+    add('probability_to_odds', cu.probability_to_odds, p01)
+    add('odds_to_probability', cu.odds_to_probability, p01 * 3)
+    add('logit', cu.logit, p01)
+    add('inverse_logit', cu.inverse_logit, p01 * 4 - 2)
+    add('rubins_rules', cu.rubins_rules, est, np.sqrt(var))
+    add('s_value', cu.s_value, p01[:8])
+    cnt = rng.integers(5, 60, 4)
+    for fn in ('risk_ratio', 'risk_difference', 'number_needed_to_treat', 'odds_ratio', 'attributable_community_risk',
+               'population_attributable_fraction'):
+        add(fn + '(counts as 1-element arrays)',
+            (lambda g: lambda a, b, c, d: g(a[0], b[0], c[0], d[0]))(getattr(cu, fn)),
+            cnt[:1], cnt[1:2], cnt[2:3], cnt[3:4], kinds=['ndarray'])
+    add('risk_ci', lambda e, t: cu.risk_ci(e[0], t[0]), cnt[:1], cnt[:1] + 30, kinds=['ndarray'])
+    add('incidence_rate_ci', lambda e, t: cu.incidence_rate_ci(e[0], t[0]), cnt[:1], cnt[:1] * 7.5, kinds=['ndarray'])
+    # ---- causal/utils.py
+    add('propensity_score', lambda d: np.asarray(zu.propensity_score(d, 'A ~ L1 + L2', print_results=False).predict(d)),
+        frame=cc)
+    add('propensity_score(weights)',
+        lambda d: np.asarray(zu.propensity_score(d, 'A ~ L1 + L2', weights='W', print_results=False).predict(d)), frame=cc)
+    for st in ('population', 'exposed', 'unexposed'):
+        for stab in (True, False):
+            add('iptw_calculator(%s,%s,bound)' % (st, stab),
+                (lambda st, stab: lambda d: [np.asarray(x) for x in zu.iptw_calculator(
+                    d, 'A', 'L1 + L2', '1', 'W', stab, st, [0.3, 0.6], False)])(st, stab), frame=cc)
+    add('check_input_data', lambda d: zu.check_input_data(d, 'A', 'Y', 'x', False, True, True)[0], frame=df)
+    add('check_input_data(drop_censoring)', lambda d: zu.check_input_data(d, 'A', 'Y', 'x', True, True, True)[0],
+        frame=df)
+    add('positivity', lambda d: zu.positivity(d, 'w_'), frame=cc)
+    add('standardized_mean_differences', lambda d: zu.standardized_mean_differences(d, 'A', 'w_', 'L1 + L2'), frame=cc)
+    add('plot_kde', lambda d: zu.plot_kde(d, 'A', 'ps'), frame=cc)
+    add('plot_love', lambda d: zu.plot_love(d, 'A', 'w_', 'L1 + L2'), frame=cc)
+    add('stochastic_check_conditional',
+        lambda d: zu.stochastic_check_conditional(d, ["df['L1']==1", "df['L1']==0"]), frame=cc)
+    add('outcome_accuracy', lambda t, pr: zu.outcome_accuracy(t, pr), yb, q1)
+    add('plot_kde_accuracy', lambda v: zu.plot_kde_accuracy(v), q1 - yb)
+    for diff in (True, False):
+        add('aipw_calculator(difference=%s)' % diff,
+            (lambda diff: lambda y, a, pa, pn, p1: zu.aipw_calculator(y, a, pa, pn, p1, 1 - p1, difference=diff))(diff),
+            yb, ab, q1, q0, g1)
+        add('aipw_calculator(difference=%s,weights,splits)' % diff,
+            (lambda diff: lambda y, a, pa, pn, p1, w, sp: zu.aipw_calculator(
+                y, a, pa, pn, p1, 1 - p1, difference=diff, weights=w, splits=sp))(diff),
+            yb, ab, q1, q0, g1, np.asarray(cc['w_']), spl)
+    add('exposure_machine_learner', lambda x, y: zu.exposure_machine_learner(x, y, LogisticRegression(), False),
+        X.ravel(), ab, kinds=['ndarray'])          # (reshaped below)
+    todo.pop()
+    for nm, f in (('exposure_machine_learner', lambda x, y: zu.exposure_machine_learner(x, y, LogisticRegression(), False)),
+                  ('outcome_machine_learner',
+                   lambda x, y: zu.outcome_machine_learner(x, y, x, x, LinearRegression(), True, False)),
+                  ('missing_machine_learner',
+                   lambda x, y: zu.missing_machine_learner(x, y, x, x, LogisticRegression(), False)),
+                  ('stochastic_outcome_machine_learner',
+                   lambda x, y: zu.stochastic_outcome_machine_learner(x, y, LogisticRegression(), False, False)[0])):
+        def build(f=f):
+            x, y = np.array(X), np.array(ab)
+            return (lambda: f(x, y)), [x, y]
+        todo.append((nm + '[ndarray]', build))
+    # ---- doublyrobust/utils.py, crossfit.py
+    yc = rng.uniform(1.0, 9.0, m)
+    add('tmle_unit_bounds', lambda y: du.tmle_unit_bounds(y, 1.0, 9.0, 0.01), yc)
+    add('tmle_unit_unbound', lambda y: du.tmle_unit_unbound(y, 1.0, 9.0), p01)
+    for meth in ('median', 'mean'):
+        add('calculate_joint_estimate(%s)' % meth,
+            (lambda meth: lambda pe, ve: cf.calculate_joint_estimate(pe, ve, meth))(meth), est, var,
+            kinds=['ndarray', 'series'])
+    add('targeting_step', lambda y, a, pa, pn, p1, sp: cf.targeting_step(y, a, pa, pn, p1, 1 - p1, sp),
+        yb, ab, q1, q0, g1, spl, kinds=['ndarray'])
+
+    def tmle_calc(y, a, pa, pn, p1, sp, measure):
+        o = np.argsort(sp, kind='stable')          # the classes hand over rows grouped by split
+        y, a, pa, pn, p1, sp = (np.asarray(v)[o] for v in (y, a, pa, pn, p1, sp))
+        y1, y0, ya, h1, h0, haw = cf.targeting_step(y, a, pa, pn, p1, 1 - p1, sp)
+        return cf.tmle_calculator(y, y1, y0, ya, h1, h0, haw, sp, measure=measure)
+    for meas in ('risk_difference', 'risk_ratio', 'odds_ratio'):
+        add('tmle_calculator(%s)' % meas,
+            (lambda meas: lambda y, a, pa, pn, p1, sp: tmle_calc(y, a, pa, pn, p1, sp, meas))(meas),
+            yb, ab, q1, q0, g1, spl, kinds=['ndarray'])
+    # ---- base.py, graphics
+    add('spline', lambda d: zepid.spline(d, 'L2', n_knots=3, term=2, restricted=True), frame=df)
+    add('create_spline_transform', lambda v: zepid.create_spline_transform(v, n_knots=3, term=2, restricted=True)[1],
+        np.asarray(df['L2']), kinds=['ndarray', 'series'])
+    add('table1_generator', lambda d: zepid.table1_generator(d, ['L1', 'L2'], ['category', 'continuous'], strat_by='A'),
+        frame=df)
+    add('interaction_contrast', lambda d: zepid.interaction_contrast(d, 'A', 'Y', 'L1', print_results=False), frame=cc)
+    add('interaction_contrast_ratio',
+        lambda d: zepid.interaction_contrast_ratio(d, 'A', 'Y', 'L1', print_results=False), frame=cc)
+    add('functional_form_plot', lambda d: zg.functional_form_plot(d, 'Y', 'L2', discrete=False), frame=cc)
+    add('roc', lambda d: zg.roc(d, 'Y', 'ps'), frame=cc)
+    add('labbe_plot', lambda r1, r0: zg.labbe_plot(r1, r0), p01[:6], p01[6:12])
+    add('pvalue_plot', lambda: zg.pvalue_plot(0.2, 0.1))
     for cls in ('RiskRatio', 'RiskDifference', 'OddsRatio', 'NNT'):
-        calls.append((cls + '.fit', (lambda c: lambda: getattr(zepid, c)().fit(df, exposure='A', outcome='Y'))(cls),
-                      [df]))
+        add(cls + '.fit', (lambda c: lambda d: getattr(zepid, c)().fit(d, exposure='A', outcome='Y'))(cls), frame=df)
     for cls in ('IncidenceRateRatio', 'IncidenceRateDifference'):
-        calls.append((cls + '.fit',
-                      (lambda c: lambda: getattr(zepid, c)().fit(df, exposure='A', outcome='Y', time='t'))(cls), [df]))
-    for name, f, objs in calls:
-        w = Watch()
-        for j, o in enumerate(objs):
-            w.add('%s arg%d' % (name, j), o)
+        add(cls + '.fit', (lambda c: lambda d: getattr(zepid, c)().fit(d, exposure='A', outcome='Y', time='t'))(cls),
+            frame=df)
+    for cls in ('Sensitivity', 'Specificity', 'Diagnostics'):
+        add(cls + '.fit', (lambda c: lambda d: getattr(zepid, c)().fit(d, test='L1', disease='L3'))(cls), frame=df)
+
+    def call(f):
+        plt.close('all')
         try:
             with warnings.catch_warnings():
                 warnings.simplefilter('ignore')
                 with contextlib.redirect_stdout(io.StringIO()):
-                    f()
-            st = 'ok'
+                    r = canon(f())
+            out = ('ok', r)
         except Exception as e:
-            st = 'err ' + type(e).__name__
-        chk.case({'function': name, 'status': st})
-        chk.count('function_sweep:' + st.split(' ')[0])
-        chk.count('nonmutation_checks')
-        chk.d(not w.changed(), '%s leaves its arguments unchanged' % name, {'function': name, 'status': st,
-                                                                            'changed': w.changed()})
+            out = ('err', type(e).__name__ + ': ' + str(e)[:80])
+        plt.close('all')
+        return out
+
+    for name, build in todo:
+        f, objs = build()
+        w = Watch()
+        for j, o in enumerate(objs):
+            w.add('argument %d' % j, o)
+        r1 = call(f)
+        bad = w.changed()
+        r2 = call(f)
+        bad2 = w.changed()
+        rep = r1[0] == r2[0] and (r1[0] == 'err' or same_val(r1[1], r2[1]))
+        st = r1[0] if r1[0] == 'ok' else 'err ' + r1[1]
+        case = {'function': name, 'status': st, 'changed': bad + bad2, 'second_call_equal': rep}
+        chk.case(case, ('function', name) if r1[0] == 'ok' else None)
+        chk.count('function_sweep:' + r1[0])
+        chk.count('nonmutation_checks', 2)
+        chk.d(not bad and not bad2, '%s leaves its arguments unchanged' % name, case)
+        chk.d(rep, '%s called again on the same arguments gives the same result' % name, case)
+    chk.extra['function_sweep'] = {'functions': len(todo),
+                                   'raising_in_this_environment': chk.dist.get('function_sweep:err', 0)}
 
 
 def constructor_sweep(chk, rng):
